@@ -11,6 +11,10 @@ def main():
     sys.stdout.write(br.log[-3000:])
     if not br.ok:
         print('SETUP: Coq build failed (this is reported per property by the checks)')
+    else:
+        br = common.build_runner()
+        if not br.ok:
+            print('SETUP: runner build failed: ' + str(br.error))
     return 0
 
 
